@@ -300,6 +300,16 @@ def execute(mat, ctx):
                 f["fid"] = "%s_feat%04d" % (sp["id"], j)          # identifiers as annotation pipelines assign them
         sp.pop("refs", None)
         specs.append(sp)
+    # a vector annotation that runs from the last bases of the backbone into the downstream fusion site: it is not inside the
+    # retained fragment, so no product carries it - at any origin
+    vsp = specs[0]
+    nv = len(vsp["seq"])
+    fe = (vsp["built"]["frag_start_unrotated"] + vsp["built"]["frag_len"]) % nv
+    if vsp["built"]["rot_left"] == 0 and vsp["built"]["frag_len"] > k + 4:
+        a0 = (fe - 3) % nv
+        edge = [[a0, a0 + 5, rf.choice([1, -1])]]
+        vsp["features"] = vsp["features"] + [{"type": "misc_feature", "parts": _embedded._split_wrapping(rf, gen.rotate_parts(edge, 0, nv), nv),
+                                              "quals": {"uid": [vsp["id"] + ".edge"]}}]
     if any(sp["features"] for sp in specs):
         comp = {"A": "T", "C": "G", "G": "C", "T": "A"}
 
@@ -326,7 +336,8 @@ def execute(mat, ctx):
 
         base_f = annotated([0] * len(specs), "string")
         for trial in range(3):
-            rots = [rf.choice([rf.randrange(len(sp["seq"])), rf.randrange(min(len(sp["seq"]), width)), 0]) for sp in specs]
+            rots = [rf.choice([rf.randrange(len(sp["seq"])), rf.randrange(min(len(sp["seq"]), width)), 0,
+                               (len(sp["seq"]) - rf.randrange(1, 6)) % len(sp["seq"]), (len(sp["seq"]) - rf.randrange(1, 6)) % len(sp["seq"])]) for sp in specs]
             for how in ("string", "operator"):
                 ctx.count("evaluations")
                 ctx.count("c02_annotated_assembly_comparisons")
